@@ -15,6 +15,8 @@ BUDGET = {
     "C07": B(1500, 15000),
     "C08": B(1500, 15000),
     "C20": B(1500, 15000),
+    "C17": B(500, 6000, cpu_limit=60),
+    "C18": B(300, 4000, cpu_limit=60),
     "C19": B(2500, 40000),
     "C14": B(800, 10000),
     "C05": B(800, 12000),
@@ -37,6 +39,19 @@ RULE = {
     "C03": SCHED + "Programs as C01 plus an ordering shape (a holder, then requests issued one by one, each only after the previous requester is parked). "
            "Oracle over the event log: for requests X, Y with PARK(X) < CALL(Y), not both reads: RET(X) < RET(Y). Non-trivial = at least one such ordered pair "
            "and two threads parked at once.",
+    "C17": "rapidcheck generates byte strings (0-4 KiB, biased to NUL, 0xFF, CR, LF, 0x1A; at low weight repeated up to 4 MiB quick / 32 MiB thorough), a split into 1-8 chunks written "
+           "through the three write overloads (incl. elementSize 2/4), an open mode (Write/WriteText truncating, Append/AppendText extending pre-existing content) and a read-phase "
+           "sequence of seek/tell/size/read(buf,size,count)/read()/readStr()/reopen in Read or ReadText; plus error cases (missing file, directory). Oracle: byte + position model; "
+           "read()/readStr() equal the whole content whatever the position; read(buf) returns the item count and bytes the model predicts; size() == model length == "
+           "std::filesystem::file_size with tell() unchanged; write returns the element count; Exceptions carry NotFound / NotFile; independent std::ifstream re-read. "
+           "Non-trivial = content contains 0xFF or CRLF or exceeds 4096 bytes and the read phase has a size() at a non-zero position (error cases count as non-trivial). Distinct = distinct case text.",
+    "C18": "rapidcheck generates (1) directory trees (depth <=4, <=40 nodes quick / 80 thorough, empty dirs, files of 0 B..64 KiB (2 MiB thorough), names with spaces, dots, leading dots, '...', "
+           "UTF-8 and non-UTF-8 bytes, backslashes) built with std::filesystem in a temporary directory; (2) path strings (d from segments/separators, absolute/relative, 0-2 trailing "
+           "separators; separator-free names n) and odd strings; (3) strictly nested DirectoryVisitor stacks over generated directories (existing, missing, '.', '..', relative, empty). "
+           "Oracle: (1) exists/isFile/isDirectory/size/listChildren vs std::filesystem for every node (absolute, relative, trailing separator) and missing paths, three passes under a tight "
+           "descriptor limit, no descriptor left open; (2) getPathName(join(d,n))==n, getParentDirectory(join(d,n))==d minus one trailing '/', join(x,'/abs')=='/abs', join('',y)==y, ASan on "
+           "every string; (3) after restore()/destruction the cwd is what it was immediately before the visitor's last effective visit(). Non-trivial = a tree with >=2 levels, an empty "
+           "directory and a non-ASCII name, or a string law on a directory with a trailing separator / absolute. Distinct = distinct case text.",
     "C19": "rapidcheck builds locale strings from pieces: (language by code | by name) _ (country by code | by name) [. charset] over the public tables; near misses (case changes, "
            "truncated/extended names, unknown codes, empty parts); structure breakers (no '_', '.' before '_', several of each, only delimiters); fillers of 1..300 bytes incl. "
            "63/64/65; arbitrary byte strings. Oracle: independent split and linear table lookup -> exact expected Info (by code: all table names of the code; by name: the name and only "
@@ -97,6 +112,8 @@ VS = ["controlled scheduler: pre-emption only at synchronisation operations, thr
       "glibc pthread primitives are modelled by the scheduler (mutex owner table, condvar waiter lists), not executed"]
 
 ASSUMPTIONS = {
+    "C17": ["POSIX only (text mode == binary mode)", "std::filesystem and std::ifstream are trusted", "read()/readStr() on streams opened for writing are outside the property"],
+    "C18": ["POSIX only; no symlinks or special files", "names containing '\\' are used for the filesystem oracle only, not for the join/name/parent law", "visitors are used strictly nested (LIFO)"],
     "C19": ["inputs whose country NAME contains '.' (Virgin Islands, U.S.) are ambiguous in the documented format and accepted either way (counted)",
             "by-name lookups: the table has duplicate names (Norwegian, Ndebele); any entry with that name is accepted"],
     "C14": ["element types are bitwise relocatable", "resize(n, v): v never aliases the array", "int slots that tulz leaves uninitialised are never compared"],
